@@ -3,7 +3,7 @@ CONSTANTS
   P <- U2
   Allowed <- A2
   Cap = 1
-  MaxH = 4
+  MaxH = 2
   BugNoWitness = FALSE
   BugSeenCache = FALSE
   BugWindow = FALSE
